@@ -32,4 +32,14 @@ m = {
     "notes": "See DESIGN.md. known_findings.json lists recorded findings and fixed defects.",
 }
 json.dump(m, open(os.path.join(R, "MANIFEST.json"), "w"), indent=1)
+# known_findings.json = merge of known/<ID>.json (the checks read the per-property files)
+kn, fx = [], []
+kd = os.path.join(R, "known")
+for f in sorted(os.listdir(kd)) if os.path.isdir(kd) else []:
+    if f.endswith(".json"):
+        k = json.load(open(os.path.join(kd, f)))
+        pid = f[:-5]
+        kn += [dict(x, property=pid) for x in k.get("known", [])]
+        fx += [dict(x, property=pid) for x in k.get("fixed", [])]
+json.dump({"known": kn, "fixed": fx}, open(os.path.join(R, "known_findings.json"), "w"), indent=1)
 print("claimed:", sorted(claimed), "not_applicable:", [x["property_id"] for x in na])
